@@ -42,7 +42,17 @@ RULE = (
     "5 bands; 2d: two bases (one impulse base, one lobe base; N>=72: the lobe base) with every rotation and mirror "
     "on 2 bands. A case "
     "(member, band) is non-trivial when the band holds energy (reference m0 > 0) and the reference resultant "
-    "exceeds 1e-9, so that direction AND spread are compared; distinct cases are counted once (in the (time) layout)."
+    "exceeds 1e-9, so that direction AND spread are compared; distinct cases are counted once (in the (time) layout). "
+    "History family (units 'history:*'): for a 1d object and a 2d object (uniform 12 bins from 7.5; thorough also 8 "
+    "from -170 and 36 from 350) x every layout, EVERY sequence of length 1..3 over {mean_direction(default band), "
+    "mean_directional_spread(0.1,0.35), peak_direction(0.05,0.2+ulp), peak_directional_spread(default), "
+    "mean_direction_per_frequency, mean_spread_per_frequency} + {multiply(full shape, inplace), multiply(per "
+    "frequency (1d) / per direction (2d), inplace), fillna(1.0), spec['variance_density']=..., "
+    "spec.dataset['variance_density']=..., 1d only: spec['a1']=..., spec.dataset['b1']=...} is executed on a fresh "
+    "object holding six members (layout (): one); every read is checked against the definitions evaluated on the "
+    "data the object holds at that moment, and after histories of length <= 2 all six reads are made once more with "
+    "the bands swapped. Named restriction 'history_length3_quick': quick runs length 3 in the (time) layout only. "
+    "A history is non-trivial when a read precedes an in-place modification."
 )
 ASSUMPTIONS = [
     "lattice of moments / densities, not the continuum",
@@ -59,6 +69,8 @@ REQUIRED_CATEGORIES = [
     "band_no_energy_classified", "peak_tie", "peak_compared", "per_frequency_compared", "mean_moment_compared",
     "rotation_direction_pairs", "rotation_invariant_pairs", "mirror_direction_pairs", "mirror_invariant_pairs",
     "layout_scalar", "layout_time", "layout_time_lat", "layout_flat", "range_checked",
+    "history_executed", "history_read_then_mutate", "history_mutation_steps", "history_reads_checked",
+    "history_direction_compared",
 ]
 
 F = np.array([0.05, 0.1, 0.2, 0.35])
@@ -70,6 +82,29 @@ TOL_M = 1e-12        # absolute tolerance of a (band averaged) moment: 4..144 te
 TOL_D = 4e-12        # |r cos D - A|: error of A plus error of r
 TOL_S2 = 8e-12       # spread^2 in rad^2 = 2(1-r): 2 * error of r, doubled
 MAX_CELLS = 2_000_000
+
+# history family: one object, a sequence of reads and in-place modifications
+HISTORY_GRIDS = {"quick": ["uni12@7.5"], "thorough": ["uni8@-170", "uni36@350"]}
+HISTORY_MAXLEN = 3
+B_MID = (0.1, 0.35)
+B_LOW = (0.05, float(np.nextafter(0.2, 1)))
+# read operation -> (library attribute, band used as a history step, band used in the closing observation)
+HISTORY_READS = {
+    "mean_direction": ("mean_direction", None, B_MID),
+    "mean_directional_spread": ("mean_directional_spread", B_MID, None),
+    "peak_direction": ("peak_direction", B_LOW, None),
+    "peak_directional_spread": ("peak_directional_spread", None, B_LOW),
+    "mean_direction_per_frequency": ("mean_direction_per_frequency", "prop", "prop"),
+    "mean_spread_per_frequency": ("mean_spread_per_frequency", "prop", "prop"),
+}
+HISTORY_MUTATORS = {
+    "1d": ("mul_full", "mul_axis", "fillna", "setitem", "dataset_assign", "set_a1", "set_b1"),
+    "2d": ("mul_full", "mul_axis", "fillna", "setitem", "dataset_assign"),
+}
+
+
+def history_ops(part):
+    return tuple(HISTORY_READS) + HISTORY_MUTATORS[part]
 
 
 # ---------------------------------------------------------------------------------------------
@@ -193,6 +228,22 @@ def units(tier):
             cost = 6 * n * n * n / 20 if layout != "scalar" else 40 * n
             us.append({"name": f"2d:{g['name']}:{layout}", "kind": "2d", "grid": g["name"], "layout": layout,
                        "cost": int(cost)})
+    # history family (see run_history): named restriction 'history_length3_quick' -- the quick tier runs the
+    # length-3 histories in the (time) layout only, the other layouts run every history of length <= 2
+    targets = [("1d", None)] + [("2d", gname) for gname in
+                                HISTORY_GRIDS["quick"] + (HISTORY_GRIDS["thorough"] if tier == "thorough" else [])]
+    for part, gname in targets:
+        ops = history_ops(part)
+        base = f"history:{part}" + (f":{gname}" if gname else "")
+        for layout in LAYOUTS:
+            if tier == "thorough" or layout == "time":
+                for op in ops:
+                    us.append({"name": f"{base}:{layout}:first={op}", "kind": "history", "part": part, "grid": gname,
+                               "layout": layout, "maxlen": HISTORY_MAXLEN, "first": op,
+                               "cost": 800 if part == "2d" else 300})
+            else:
+                us.append({"name": f"{base}:{layout}", "kind": "history", "part": part, "grid": gname,
+                           "layout": layout, "maxlen": 2, "first": None, "cost": 1500 if part == "2d" else 400})
     return us
 
 
@@ -656,7 +707,259 @@ def run_2d(unit):
 
 
 def run_unit(unit):
-    r = run_1d(unit) if unit["kind"] == "1d" else run_2d(unit)
+    if unit["kind"] == "history":
+        r = run_history(unit)
+    else:
+        r = run_1d(unit) if unit["kind"] == "1d" else run_2d(unit)
     if unit["layout"] != "time":
         r["distinct_nontrivial"] = 0
     return r
+
+
+# ---------------------------------------------------------------------------------------------
+# history family: reads and in-place modifications on ONE object
+# ---------------------------------------------------------------------------------------------
+def history_members_1d():
+    """six members: (lattice indices per frequency, energy word); moments finite and inside the unit disc."""
+    L = lattice()
+    lab = {p[0]: i for i, p in enumerate(L)}
+    n = len(L)
+    st = lambda i: (i, (i + 7) % n, (i + 31) % n, (i + 59) % n)  # noqa: E731
+    c = lambda key: (lab[key],) * 4  # noqa: E731
+    return [
+        (st(5), (1.0, 3.0, 0.0, 1.0)),
+        (c((1.0, 105)), (3.0, 1.0, 1.0, 0.0)),
+        ((lab[(0.5, 45)], lab[(1.0, 270)], lab[(0.5, 45)], lab[(1.0, 270)]), (0.0, 1.0, 3.0, 1.0)),
+        (c((0.0, 0)), (1.0, 1.0, 1.0, 1.0)),
+        (st(40), (3.0, 0.0, 0.0, 3.0)),
+        (c((0.9, 180)), (1.0, 0.0, 3.0, 0.0)),
+    ]
+
+
+def history_members_2d(theta):
+    """six members E[NF, N], two of them with a NaN bin (so that fillna changes the density)."""
+    n = len(theta)
+    b = dict(bases2d(theta))
+    m = [b[("lobe", 5 % n)].copy(), b[("imp", 1)].copy(), b[("pair", 3)].copy(), b[("lobe", 0)].copy(),
+         np.roll(b[("imp", 4)], 5, axis=-1).copy(), b[("pair", n - 1)].copy()]
+    m[0][3, 7 % n] = np.nan
+    m[0][0, 1] = np.nan
+    m[2][0, 2] = np.nan
+    return m
+
+
+def history_reference(part, s, theta, nm):
+    """(e, a1, b1, valid) (nm, NF) from the data the object holds NOW.  No library computation."""
+    if part == "1d":
+        e = np.array(_vals(s.dataset["variance_density"]), dtype=float).reshape(nm, NF)
+        a1 = np.array(_vals(s.dataset["a1"]), dtype=float).reshape(nm, NF)
+        b1 = np.array(_vals(s.dataset["b1"]), dtype=float).reshape(nm, NF)
+        with np.errstate(invalid="ignore"):
+            valid = np.isfinite(a1) & np.isfinite(b1) & (a1 ** 2 + b1 ** 2 <= 1 + 1e-12)
+        return e, a1, b1, valid
+    cur = np.array(_vals(s.dataset["variance_density"]), dtype=float).reshape(nm, NF, len(theta))
+    e, a1, b1, _, _ = ref_2d(theta, np.where(np.isnan(cur), 0.0, cur))
+    valid = e > 0
+    return e, np.where(valid, a1, 0.0), np.where(valid, b1, 0.0), valid
+
+
+def history_check_read(c, name, band, v, ref):
+    """failure text or None for one read against the reference (e, a1, b1, valid)."""
+    e, a1, b1, valid = ref
+    nm = e.shape[0]
+    v = np.asarray(v, dtype=float)
+    ra = np.sqrt(a1 ** 2 + b1 ** 2)
+    c.cat("history_reads_checked")
+    if band == "prop":
+        if v.size != nm * NF:
+            return f"shape {v.shape}"
+        v = v.reshape(nm, NF)
+        if name == "mean_direction_per_frequency":
+            cmpd = valid & (ra > 1e-9)
+            bad = cmpd & ~direction_ok(v, a1, b1, ra)
+            with np.errstate(invalid="ignore"):
+                bad |= ~np.isnan(v) & ~((v >= -180.0) & (v <= 180.0))
+            c.cat("history_direction_compared", int(np.sum(cmpd)))
+        else:
+            with np.errstate(invalid="ignore"):
+                bad = valid & (~spread_ok(v, ra) | ~((v >= 0.0) & (v <= SPREAD_MAX)))
+        if bad.any():
+            i, fi = np.argwhere(bad)[0]
+            return (f"member {i} f{fi}: returned {v[i, fi]} but the object now holds a1={a1[i, fi]}, b1={b1[i, fi]} "
+                    f"(direction {math.degrees(math.atan2(b1[i, fi], a1[i, fi]))}, spread "
+                    f"{math.degrees(math.sqrt(max(0.0, 2 - 2 * ra[i, fi])))})")
+        return None
+    if v.size != nm:
+        return f"shape {v.shape}"
+    v = v.reshape(nm)
+    mask = band_mask(band)
+    inband_ok = np.all(valid | ~mask[None, :] | ~(e > 0), axis=1)   # every in-band moment that carries energy is valid
+    if name.startswith("mean_"):
+        m0 = trapz_band(e, mask)
+        den = np.where(m0 > 0, m0, 1.0)
+        A = trapz_band(np.where(e > 0, a1 * e, 0.0), mask) / den
+        B = trapz_band(np.where(e > 0, b1 * e, 0.0), mask) / den
+        r = np.sqrt(A ** 2 + B ** 2)
+        has = (m0 > 0) & inband_ok
+        if name == "mean_direction":
+            cmpd = has & (r > 1e-9)
+            bad = cmpd & ~direction_ok(v, A, B, r)
+            with np.errstate(invalid="ignore"):
+                bad |= ~np.isnan(v) & ~((v >= -180.0) & (v <= 180.0))
+            c.cat("history_direction_compared", int(np.sum(cmpd)))
+        else:
+            with np.errstate(invalid="ignore"):
+                bad = has & (~spread_ok(v, r) | ~((v >= 0.0) & (v <= SPREAD_MAX)))
+        if bad.any():
+            i = int(np.argwhere(bad)[0][0])
+            return (f"member {i}: returned {v[i]} but the data the object now holds give A={A[i]}, B={B[i]} (direction "
+                    f"{math.degrees(math.atan2(B[i], A[i]))}, spread {math.degrees(math.sqrt(max(0.0, 2 - 2 * r[i])))}); "
+                    f"e={e[i].tolist()}")
+        return None
+    em = np.where(mask[None, :], e, -1.0)
+    emax = em.max(axis=1)
+    pk_ok = (emax > 0) & inband_ok
+    cand = mask[None, :] & (e >= emax[:, None] * (1.0 - 1e-9)) & pk_ok[:, None]
+    ok = np.zeros(nm, dtype=bool)
+    for i in range(NF):
+        if name == "peak_direction":
+            with np.errstate(invalid="ignore"):
+                small = ~(ra[:, i] > 1e-9)
+            ok |= cand[:, i] & (small | direction_ok(v, a1[:, i], b1[:, i], ra[:, i]))
+        else:
+            ok |= cand[:, i] & spread_ok(v, ra[:, i])
+    with np.errstate(invalid="ignore"):
+        if name == "peak_direction":
+            rng_bad = ~np.isnan(v) & ~((v >= -180.0) & (v <= 180.0))
+            c.cat("history_direction_compared", int(np.sum(pk_ok)))
+        else:
+            rng_bad = pk_ok & ~((v >= 0.0) & (v <= SPREAD_MAX))
+    bad = (pk_ok & ~ok) | rng_bad
+    if bad.any():
+        i = int(np.argwhere(bad)[0][0])
+        return (f"member {i}: returned {v[i]}, which does not follow from the moments at an in-band maximum of the e(f) "
+                f"the object now holds: e={e[i].tolist()}, a1={a1[i].tolist()}, b1={b1[i].tolist()}")
+    return None
+
+
+def all_histories(ops, maxlen, first):
+    out = []
+    for length in range(1, maxlen + 1):
+        for h in itertools.product(ops, repeat=length):
+            if first is None or h[0] == first:
+                out.append(list(h))
+    return out
+
+
+def run_history(unit):
+    c = Collector()
+    part, layout, tier = unit["part"], unit["layout"], unit["tier"]
+    base_key = {"part": part, "layout": layout, "family": "history"}
+    theta = None
+    if part == "2d":
+        g = next(x for x in grids2d(tier) if x["name"] == unit["grid"])
+        theta = list(g["theta"])
+        base_key["grid"] = g["name"]
+    rep = Reporter(c, base_key, cap=3)
+    c.cat("layout_" + layout)
+    ops = history_ops(part)
+    if part == "1d":
+        L = lattice()
+        la = np.array([p[1] for p in L])
+        lb = np.array([p[2] for p in L])
+        mem = history_members_1d()
+        idx = np.array([m[0] for m in mem])
+        data = {"E": np.array([m[1] for m in mem]), "a1": la[idx], "b1": lb[idx]}
+        idx2 = (idx * 5 + 3) % len(L)
+        data["a2"], data["b2"] = la[idx2], lb[idx2]
+    else:
+        data = {"E": np.stack(history_members_2d(theta))}
+    nsel = [0] if layout == "scalar" else list(range(len(data["E"])))
+    hists = all_histories(ops, unit["maxlen"], unit["first"])
+    for hist in hists:
+        try:
+            one_history(c, rep, part, layout, theta, {k: v[nsel] for k, v in data.items()}, hist)
+        except Exception as exc:
+            if not _lib_raised(exc):
+                raise
+            rep("history raises", f"{type(exc).__name__}: {exc} in history {hist}", history=hist,
+                traceback=traceback.format_exc()[-1500:])
+        c.evaluations += len(nsel)
+        c.cat("history_executed")
+        c.cat("history_mutation_steps", sum(1 for op in hist if op not in HISTORY_READS))
+        seen_read = stale_possible = False
+        for op in hist:
+            if op in HISTORY_READS:
+                seen_read = True
+            elif seen_read:
+                stale_possible = True
+        if stale_possible:
+            c.cat("history_read_then_mutate")
+            if layout == "time":
+                c.nontriv(("history", part, unit.get("grid")) + tuple(hist))
+    c.case({"family": "history", "part": part, "grid": unit.get("grid"), "layout": layout, "ops": list(ops),
+            "maxlen": unit["maxlen"], "first": unit["first"], "histories": len(hists)})
+    c.sample({"family": "history", "part": part, "grid": unit.get("grid"), "layout": layout, "operations": list(ops),
+              "max_length": unit["maxlen"], "first": unit["first"], "histories": len(hists), "example": hists[-1]})
+    return c.result()
+
+
+def one_history(c, rep, part, layout, theta, data, hist):
+    E = data["E"]
+    nm = E.shape[0]
+    if part == "1d":
+        trailing, axis_name, naxis = (NF,), "frequency", NF
+        if layout == "scalar":
+            s = make_1d(F, E[0].copy(), data["a1"][0].copy(), data["b1"][0].copy(), data["a2"][0].copy(),
+                        data["b2"][0].copy())
+        else:
+            shp = lambda x: reshape_lead(x.copy(), layout, trailing)  # noqa: E731
+            s = make_1d(F, shp(E), shp(data["a1"]), shp(data["b1"]), shp(data["a2"]), shp(data["b2"]),
+                        flat=(layout == "flat"))
+    else:
+        n = len(theta)
+        trailing, axis_name, naxis = (NF, n), "direction", n
+        if layout == "scalar":
+            s = make_2d(F, np.array(theta), E[0].copy())
+        else:
+            s = make_2d(F, np.array(theta), reshape_lead(E.copy(), layout, trailing), flat=(layout == "flat"))
+    waxis = np.array([0.5 + (j % 3) for j in range(naxis)])
+
+    def read(step, op, closing=False):
+        attr, band_step, band_close = HISTORY_READS[op]
+        band = band_close if closing else band_step
+        ref = history_reference(part, s, theta, nm)
+        if band == "prop":
+            v = _vals(getattr(s, attr))
+        else:
+            v = _vals(getattr(s, attr)(*(() if band is None else band)))
+        msg = history_check_read(c, op, band, v, ref)
+        if msg:
+            bkey = "per_frequency" if band == "prop" else ("default" if band is None else [float(band[0]), float(band[1])])
+            where = f"closing observation after {hist}" if closing else f"after {hist[:step + 1]} (step {step})"
+            rep(f"history {op}", f"{where}: {msg}", history=list(hist), step=(-1 if closing else step), band=bkey)
+
+    for step, op in enumerate(hist):
+        if op in HISTORY_READS:
+            read(step, op)
+        elif op == "mul_full":
+            s.multiply(np.full(s.shape(), 3.0), inplace=True)
+        elif op == "mul_axis":
+            s.multiply(waxis.copy(), dimensions=[axis_name], inplace=True)
+        elif op == "fillna":
+            s.fillna(1.0)
+        elif op == "setitem":
+            da = s.dataset["variance_density"]
+            s["variance_density"] = da.copy(data=2.0 * _vals(da)[..., ::-1] + 0.25)
+        elif op == "dataset_assign":
+            s.dataset["variance_density"] = 0.5 * s.dataset["variance_density"].roll({axis_name: 1}, roll_coords=False)
+        elif op == "set_a1":
+            da = s.dataset["a1"]
+            s["a1"] = da.copy(data=-0.5 * _vals(da))
+        elif op == "set_b1":
+            s.dataset["b1"] = -s.dataset["b1"]
+        else:
+            raise AssertionError(op)
+    if len(hist) <= 2:
+        for op in HISTORY_READS:
+            read(len(hist) - 1, op, closing=True)
